@@ -13,6 +13,12 @@ IoBuf *io_new();
 void io_delete(IoBuf *b);
 const Ostream &io_writer(IoBuf *b);                                     /* appends to the buffer */
 const Istream &io_reader(IoBuf *b, size_t limit, bool cxx_transport);   /* reads from offset 0, sees only `limit` bytes */
+/* truncated reader for crash-point analysis: the stream is cut inside region R at relative offset d (d is reduced modulo the
+   region length). Regions partition the export: every text section is one region, every maximal run of binary bytes is one region.
+   Everything before region R is available, everything after it is not; only the cut inside a binary region is symbolic. */
+int io_regions(IoBuf *b);
+bool io_region_is_text(IoBuf *b, int R);
+const Istream &io_reader_region(IoBuf *b, int R, size_t d, bool cxx_transport);
 bool io_failed(IoBuf *b);             /* C++ transport: stream is in a failed state after the reads so far */
 size_t io_size(IoBuf *b);             /* bytes written so far (model: nominal size, text records count IO_REC_BYTES each) */
 size_t io_consumed(IoBuf *b);         /* bytes consumed by the reader so far */
